@@ -61,6 +61,17 @@ Fixpoint predef (t : gty) : gty :=
   | _ => t
   end.
 
+(** the structural components of a position *)
+Fixpoint subterms (t : gty) : list gty :=
+  t :: match t with
+       | GPointer e | GArray _ e | GSlice e => subterms e
+       | GMap k e => subterms k ++ subterms e
+       | _ => []
+       end.
+
+Fixpoint dedup_gty (l : list gty) : list gty :=
+  match l with [] => [] | x :: r => if existsb (gty_eqb x) r then dedup_gty r else x :: dedup_gty r end.
+
 Section Classify.
   Variable pr : prog.
   Variable enums : list enum.
@@ -153,6 +164,24 @@ Section Classify.
               closure f (sh_children sh ++ rest) ((t, sh) :: seen)
         end
     end.
+
+  (** * the finite universe of the positions of a program, and the bound it gives on the fuel *)
+  Definition cost (t : gty) : nat := match classify t with Ok sh => List.length (sh_children sh) | _ => 0 end.
+  Definition unseen (U : list gty) (seen : list (gty * shape)) : list gty := filter (fun t => negb (seen_mem t seen)) U.
+  Definition pot (U : list gty) (seen : list (gty * shape)) : nat := list_sum (map cost (unseen U seen)).
+
+  Definition struct_children (d : ndecl) : list gty :=
+    match n_under d with UStruct fs => map f_type (flat_fields (List.length (pr_types pr)) fs) | _ => [] end.
+
+  (** what a named position can link to: the underlying type, the field types, the members of an union *)
+  Definition roots : list gty :=
+    flat_map (fun d => GNamed (n_id d) :: under_gty d :: struct_children d) (pr_types pr)
+    ++ flat_map (fun u : string * list string => map GNamed (snd u)) unions.
+
+  Definition universe : list gty := dedup_gty (flat_map subterms roots).
+
+  (** the length of the initial worklist plus everything the universe can ever push *)
+  Definition closure_bound (source : list gty) : nat := List.length source + pot universe [].
 End Classify.
 
 (** the source declarations: type names of the analysed file, by position *)
